@@ -767,24 +767,30 @@ func (s *DB) getHistoricRootsAndNodes(
 		}
 	}
 	// Other writers may have committed versions this tree has not merged.
-	// They are not in the graph above, but can share nodes with it.
+	// Neither they nor the versions they supersede are in the graph above,
+	// but all of them can share nodes with it.
 	current, err := s.listRoots(ctx)
 	if err != nil {
 		return nil, nil, fmt.Errorf("list roots: %w", err)
 	}
-	for _, name := range current {
+	superseded, err := s.listMergedRoots(ctx)
+	if err != nil {
+		return nil, nil, fmt.Errorf("list merged roots: %w", err)
+	}
+	for _, name := range append(current, superseded...) {
 		if _, ok := rootCacheByName[name]; ok {
 			continue
 		}
 		name := name
-		root, _, err := loadRoot(ctx, s.root, name)
+		root, _, err := loadRootFromAny(ctx, []mast.Persist{s.root, s.merged}, name)
 		if err != nil {
-			if isNoSuchKey(err) {
-				// retired in the meantime
-				continue
-			}
 			return nil, nil, fmt.Errorf("load %s: %w", name, err)
 		}
+		if root == nil {
+			// retired or vacuumed in the meantime
+			continue
+		}
+		rootCacheByName[name] = root
 		kept, err := crdt.Load(ctx, loadConfig, &name, *root)
 		if err != nil {
 			return nil, nil, err
